@@ -207,6 +207,53 @@ def unbounded_problem(rng, n):
     return prob, np.ones(n), {}
 
 
+class LogDomainProblem(Problem):
+    """f(x) = sum_i w_i (x_i - log x_i) + 1/2 |x - a|^2, free variables, optional row sum(x) >= s.
+    The objective is NaN for x_i <= 0 although no bound says so: trial points may be non-evaluable."""
+
+    def __init__(self, w, a, s=None):
+        self.w = np.asarray(w, dtype=float)
+        self.a = np.asarray(a, dtype=float)
+        n = self.w.size
+        if s is None:
+            super().__init__(np.full(n, -INF), np.full(n, INF), num_cons=0)
+        else:
+            super().__init__(np.full(n, -INF), np.full(n, INF), cons_lb=np.array([float(s)]), cons_ub=np.array([INF]))
+
+    def obj(self, x):
+        with np.errstate(invalid="ignore", divide="ignore"):
+            return float(np.sum(self.w * (x - np.log(x))) + 0.5 * np.sum((x - self.a) ** 2))
+
+    def obj_grad(self, x):
+        return self.w * (1.0 - 1.0 / x) + (x - self.a)
+
+    def cons(self, x):
+        return np.array([np.sum(x)])
+
+    def cons_jac(self, x):
+        return sps.coo_matrix(np.ones((1, x.size)))
+
+    def lag_hess(self, x, y):
+        return sps.diags(self.w / (x * x) + 1.0).tocoo()
+
+
+def logdomain_problem(rng, n, cons=False):
+    w = rng.uniform(0.5, 2.0, size=n)
+    a = rng.uniform(0.5, 2.0, size=n)
+    prob = LogDomainProblem(w, a, s=(0.5 * n if cons else None))
+    return prob, rng.uniform(3.0, 8.0, size=n), {}
+
+
+def equal_multiplier_problem(rng, n):
+    """min sum (x_i - a_i)^2  s.t.  x_i = b_i: all multipliers have the same magnitude (2-norm >> inf-norm)."""
+    b = rng.uniform(-1.0, 1.0, size=n)
+    mag = float(rng.uniform(0.5, 5.0))
+    a = b + 0.5 * mag * np.where(rng.uniform(size=n) < 0.5, -1.0, 1.0)
+    prob = GenProblem(2.0 * np.eye(n), -2.0 * a, np.eye(n), np.zeros((n, n)), b, np.zeros(n), np.zeros(n),
+                      np.full(n, -INF), np.full(n, INF))
+    return prob, rng.uniform(-1.0, 1.0, size=n), {}
+
+
 _REPO_CACHE = {}
 
 
